@@ -453,7 +453,7 @@ impl Worterbuch {
     }
 
     pub async fn publish(&mut self, key: Key, value: Value) -> WorterbuchResult<()> {
-        if key.split('/').next() == Some(SYSTEM_TOPIC_ROOT) {
+        if is_system_key(&key) {
             // a publish request does not carry a client ID, so no key below $SYS can be
             // known to be the caller's own: subscribers of $SYS only ever see what the server set
             return Err(WorterbuchError::ReadOnlyKey(key));
@@ -1516,6 +1516,11 @@ impl Worterbuch {
     #[instrument(skip(self))]
     pub(crate) async fn apply_grave_goods(&mut self, grave_goods: GraveGoods) {
         for gg in grave_goods {
+            if is_system_key(&gg) {
+                // the clients are not known here: what they may touch below $SYS are their own
+                // entries only, which do not outlive them anyway
+                continue;
+            }
             self.pdelete(gg, INTERNAL_CLIENT_ID).await.ok();
         }
     }
@@ -1523,6 +1528,9 @@ impl Worterbuch {
     #[instrument(skip(self))]
     pub(crate) async fn apply_last_wills(&mut self, last_wills: LastWill) {
         for lw in last_wills {
+            if is_system_key(&lw.key) {
+                continue;
+            }
             self.set(lw.key, lw.value, INTERNAL_CLIENT_ID, true)
                 .await
                 .ok();
@@ -1574,6 +1582,10 @@ fn check_for_read_only_key(key: &str, client_id: ClientId) -> WorterbuchResult<(
     // TODO potentially whitelist more fields clients may change
 
     Err(WorterbuchError::ReadOnlyKey(key.to_owned()))
+}
+
+fn is_system_key(key: &str) -> bool {
+    key.split('/').next() == Some(SYSTEM_TOPIC_ROOT)
 }
 
 fn escape_wildcards(pattern: &str) -> String {
